@@ -18,8 +18,8 @@ ASSUMPTIONS = [
     'lifecycle hooks do not raise; no kill requests (C04)',
 ]
 BUDGET = {
-    'quick': {'enum': ['k1', 'k2', 'self2', 'listener', 'wc1', 'wc2', 'afterkill'], 'hyp': 4000, 'shards': 8},
-    'thorough': {'enum': ['k1', 'k2', 'k3', 'k4w', 'self3', 'listener', 'wc1', 'wc2', 'wc3', 'afterkill'], 'hyp': 120000, 'shards': 16},
+    'quick': {'enum': ['k1', 'k2', 'self2', 'listener', 'wc1', 'wc2', 'afterkill', 'reload'], 'hyp': 4000, 'shards': 8},
+    'thorough': {'enum': ['k1', 'k2', 'k3', 'k4w', 'self3', 'listener', 'wc1', 'wc2', 'wc3', 'afterkill', 'reload'], 'hyp': 120000, 'shards': 16},
 }
 ALPHABET = [['pause', 'pm'], ['pause', None], ['play'], ['resume', 1]]
 ALPHABET_SMALL = [['pause', 'pm'], ['play'], ['resume', 1]]
@@ -41,6 +41,12 @@ def enumerate_cases(tier, scope):
         for name in gen.WC_CATALOGUE:
             for sched in gen.schedules([['pause', 'pm'], ['play']] + gen.WC_EVENTS, k, 3 if k < 3 else 2):
                 yield dict(gen.base(name), schedule=sched, tag=f'{scope}:{name}')
+    elif scope == 'reload':
+        # a checkpoint/restore in the middle is as transparent as pause/play: same steps, outputs, result and status
+        for name in ('wait1', 'waitwait', 'gated', 'chain'):
+            for pre in ([['tick', 1]], [['tick', 2]]):
+                for mid in ([['pause', 'pm'], ['tick', 2], ['reload'], ['tick', 1], ['play']], [['pause', None], ['tick', 2], ['reload'], ['play'], ['pause', 'x'], ['tick', 1], ['reload'], ['play']], [['reload'], ['pause', 'pm'], ['tick', 1], ['play']], [['pause', 'pm'], ['tick', 2], ['reload'], ['reload'], ['play']]):
+                    yield {'program': cat[name], 'schedule': pre + mid, 'tag': f'reload:{name}'}
     elif scope == 'afterkill':
         # pause()/play() never raise, also around a termination (no twin comparison for these)
         for name in ('async2', 'wait1', 'chain', 'gated'):
@@ -89,7 +95,7 @@ def _cases(draw, tier):
             kwargs=False,
         )
     )
-    sched = draw(gen.control_schedules(['pause', 'pause', 'play', 'play', 'resume', 'open'], max_events=5, max_gap=4))
+    sched = draw(gen.control_schedules(['pause', 'pause', 'play', 'play', 'resume', 'open', 'reload'], max_events=5, max_gap=4))
     plans = draw(gen.listener_plans(['pause', 'play'])) if draw(st.integers(0, 2)) == 0 else []
     return {'program': prog, 'schedule': sched, 'listener': plans}
 
